@@ -217,6 +217,13 @@ func (p c14) Generate(c *Ctx) []any {
 	for i := 0; i < n; i++ {
 		out = append(out, genData(c.Rng, i, p.prop, ""))
 	}
+	if p.prop == "C14" {
+		// class-specific streams for the open findings: every failure there must carry the class's signature
+		for i := 0; i < n/10+2; i++ {
+			out = append(out, genData(c.Rng, i, p.prop, "capture"))
+			out = append(out, genData(c.Rng, i, p.prop, "lowercase-typeparam"))
+		}
+	}
 	return out
 }
 
@@ -274,6 +281,9 @@ func check{{$i.Name}}{{$i.TypeConstraint}}(a Re{{$i.Name}}{{$i.TypeInstantiation
 	a = b
 	b = a
 	_, _ = a, b
+{{- range $i.Methods}}
+	var _ func({{.ArgTypeListEllipsis}}) {{.ReturnArgTypeList}} = a.{{.Name}}
+{{- end}}
 }
 
 type Fwd{{$i.Name}}{{$i.TypeConstraint}} struct {
@@ -281,6 +291,13 @@ type Fwd{{$i.Name}}{{$i.TypeConstraint}} struct {
 }
 {{range $i.Methods}}
 func (fwdRecv Fwd{{$i.Name}}{{$i.TypeInstantiation}}) {{.Declaration}} {
+	// the type strings must keep their meaning inside the body: no parameter name may capture them
+{{- range .Params}}
+	var _ {{.TypeString}}
+{{- end}}
+{{- range .Returns}}
+	var _ {{.TypeString}}
+{{- end}}
 	{{.ReturnStatement}} fwdRecv.inner.{{.Call}}
 }
 {{end}}
